@@ -332,6 +332,31 @@ int main(int argc, char** argv) {
                 for (long i = 0; i < n; ++i) { Tree u = Tree::unary(o1, treeOf(I(3))); t = Tree::binary(o2, t, u); }
                 setTree(d, std::move(t));
             }
+            else if (op == "mchainremap") {      // mchainremap d s l pos n : chain through slot pos (0=t 1=x 2=y 3=z)
+                Tree t = treeOf(I(2));           // s must contain x/y/z (so must l when pos != 0)
+                const Tree& l = treeOf(I(3));
+                int pos = atoi(w[4].c_str());
+                long n = atol(w[5].c_str());
+                for (long i = 0; i < n; ++i) {
+                    if (pos == 0) t = t.remap(l, l, l);
+                    else if (pos == 1) t = l.remap(t, l, l);
+                    else if (pos == 2) t = l.remap(l, t, l);
+                    else t = l.remap(l, l, t);
+                }
+                setTree(d, std::move(t));
+            }
+            else if (op == "mchainapply") {      // mchainapply d s v l pos n : chain through slot pos (0=t 1=value)
+                Tree t = treeOf(I(2));
+                const Tree& v = treeOf(I(3));
+                const Tree& l = treeOf(I(4));
+                int pos = atoi(w[5].c_str());
+                long n = atol(w[6].c_str());
+                for (long i = 0; i < n; ++i) {
+                    if (pos == 0) t = t.apply(v, l);
+                    else t = l.apply(v, t);
+                }
+                setTree(d, std::move(t));
+            }
             else { out << "unknown-op\n"; }
 
             if (built) {
